@@ -34,7 +34,7 @@ if len(blocks) != len(theorems):
 TYPES = {"nbr": "@nbr R A G", "cf": "@cf R A", "lp": "@lp R A G", "mab": "@mab R A G", "mat": "@mat R", "op": "@op R A",
          "out": "@out R A", "oracle": "@oracle R A", "ctxs": "@ctxs R", "cfop": "@cfop R A", "lin": "@lin R A G",
          "clu": "@clu R A G", "tree": "@tree R A", "ridge": "@ridge R G", "vec": "@vec R", "imp": "@imp R A G", "armst": "@armst R", "status": "@status A",
-         "batch": "@batch R A", "borc": "@borc R A", "report": "@report R A", "sbandit": "@sbandit R A G", "srow": "@srow R A", "dcache": "@dcache R", "sop": "@sop R A"}
+         "batch": "@batch R A", "borc": "@borc R A", "report": "@report R A", "sbandit": "@sbandit R A G", "srow": "@srow R A", "dcache": "@dcache R", "sop": "@sop R A", "scaler": "@scaler R"}
 def fix_implicits(ty):
     # give the record types their parameters where Coq printed them bare
     def rep(m):
